@@ -14,26 +14,56 @@ EXTRACT = "extract/ExC02.v"
 OBLIGATION = "directory_git_object"
 REQUESTS_NEED_IMPL = True
 THEOREMS = ["C02_order_free", "C02_is_git_tree", "C02_git_order", "C02_mode_octal", "C02_mode_no_leading_zero",
-            "C02_decode", "C02_manifest_injective", "C02_only_entries", "C02_valid_iff",
+            "C02_decode", "C02_manifest_injective", "C02_distinct_sets_distinct_manifests", "C02_only_entries",
+            "C02_raw_manifest_overrides", "C02_no_raw_manifest_is_default", "C02_valid_iff",
             "C02_satisfiable"]
-RULE = ("entry sets of 0-40 entries; names built as prefix chains over an adversarial alphabet (bytes next to '/', "
-        "space, newline, NUL, >=0x80) with file/dir/rev types mixed so that keys collide in sort order; perms: the "
-        "five canonical, 0, 7, 0o177777, random 16-bit; each set is evaluated in the given order and in a second "
-        "random order; invalid sets (duplicate names, '/' in a name) included; non-trivial = >=2 entries whose "
-        "names are prefixes of each other or straddle '/'; distinct = distinct request")
+RULE = ("entry sets of 0-40 entries (plus a few of several hundred entries with more distinct modes than the mode cache "
+        "holds, names of several thousand bytes, payload lengths 1 below / at / above a power of ten); names built as "
+        "prefix chains over an adversarial alphabet (bytes next to '/', space, newline, NUL, >=0x80, both letter cases) "
+        "with file/dir/rev types mixed so that keys collide in sort order; perms: the five canonical, boundary values "
+        "(0, 1, 7, 8, set-uid/set-gid/sticky bits, symlink and directory types with permission bits, 0o177777), random "
+        "16-bit and a few beyond 16 bits (2^16 .. 2^64; the theorems cover every N); targets random or patterned "
+        "(all 00 / ff / spaces / newlines, leading / trailing NUL); each set is supplied in a chosen order (shuffled, "
+        "sorted by raw name, by git key, reversed) and in two more orders; every case also (a) rebuilds the directory "
+        "with equal values of other types / argument shapes (str / bytes / tuple / DirectoryEntry subclasses, positional "
+        "arguments, perms as bool / IntEnum / int subclass, id=b'' and raw_manifest=None given explicitly), "
+        "(b) reads manifest / id / swhid / compute_hash / check / unique_key / to_dict in a per-case order, (c) goes "
+        "through from_dict (entries as list / tuple / generator / iterator, OrderedDict, explicit id / raw_manifest keys, "
+        "the same dict twice), the deprecated dict argument (same dict twice, stale ids), evolve, to_dict -> from_dict, "
+        "explicit stale ids, (d) formats a VARIANT set right after (one target / mode / type / name changed, two targets / "
+        "modes / types swapped, an entry dropped / added; for an invalid set: the repaired set) and then the first set "
+        "again, (e) calls directory_entry_sort_key on dict entries and format_git_object_from_parts on a one-shot "
+        "generator of chunks, (f) gives a raw_manifest (b'', its own manifest, junk); invalid sets (duplicate names incl. "
+        "the same entry twice, '/' in a name: inside, leading, trailing, alone, doubled) included; non-trivial = >=2 "
+        "entries whose names are prefixes of each other or straddle '/'; distinct = distinct request")
 TRUSTED = ["Python bytes ordering, sorted(key=) stability, oct(), b''.join as modelled in lib/Order.v, lib/StableSort.v, lib/Hex.v",
-           "lib/Sha1.v is only an instance of the hash oracle (validated against hashlib on every case)"]
+           "lib/Sha1.v is only an instance of the hash oracle (validated against hashlib on every case)",
+           "attrs: converter=int on perms, isinstance-based type validators (equal values of other types reach the encoder "
+           "as the plain values the model takes), attr.evolve / attr.asdict"]
 ASSUMPTIONS = ["targets are 20 bytes and names NUL-free for the decode/injectivity theorems (the property's domain)",
-               "agreement with real git (`git mktree`) is validation of the spec-level definition, not a theorem"]
+               "agreement with real git (`git mktree`) is validation of the spec-level definition, not a theorem",
+               "perms are non-negative (the model takes N; a negative perms value is accepted by the library and written as "
+               "'o<digits>', outside the property's 16-bit quantifier)",
+               "the behaviour under a recorded raw_manifest is compared with the model (C02_raw_manifest_overrides), not judged "
+               "by the property oracle: the property speaks of directories identified by their entries"]
 
 TYPES = ["file", "dir", "rev"]
 TCODE = {"file": "f", "dir": "d", "rev": "r"}
-ALPHA = [b"a", b"b", b".", b"-", b"0", b" ", b"\n", b"\x00", b"\x80", b"\xff", b"A", b"~", b"\x2e", b"\x30", b"_"]
+ALPHA = [b"a", b"b", b".", b"-", b"0", b" ", b"\n", b"\x00", b"\x80", b"\xff", b"A", b"~", b"\x2e", b"\x30", b"_", b"B", b"Z", b"^"]
+CANON_PERMS = [0o100644, 0o100755, 0o120000, 0o040000, 0o160000]
+EDGE_PERMS = [0, 1, 7, 8, 0o777, 0o1000, 0o2000, 0o4000, 0o7777, 0o10000, 0o104755, 0o102644, 0o41777, 0o40755, 0o120777,
+              0o120755, 0o100664, 0o100000, 0o140644, 0o177777]
+BIG_PERMS = [2 ** 16, 2 ** 16 + 1, 2 ** 31, 2 ** 32 + 5, 2 ** 63, 2 ** 64]
+SHAPES = ["strsub", "tgtsub", "tuplesub", "entrysub", "positional", "permalt", "defaults"]
+READS = ["manifest", "id", "swhid", "compute_hash", "check", "unique_key", "to_dict"]
+ORDERS = ["shuffle", "name", "name_rev", "git", "git_rev"]
+DICT_AS = ["list", "tuple", "gen", "iter", "ordered", "extras"]
+VARIANTS = ["target", "perms", "type", "name", "drop", "add", "swap_target", "swap_perms", "swap_type"]
 
 
 def gen_names(rng, n, allow_bad):
     names = set()
-    base = [b"a", b"ab", b"a.b", b"a-", b"a0", b"a b", b"a\n", b"A", b"", b"\xff", b"a\x80"]
+    base = [b"a", b"ab", b"a.b", b"a-", b"a0", b"a b", b"a\n", b"A", b"", b"\xff", b"a\x80", b".", b"-", b"0", b"Ab", b"B"]
     while len(names) < n:
         r = rng.random()
         if r < 0.35 and names:
@@ -48,36 +78,173 @@ def gen_names(rng, n, allow_bad):
     return sorted(names)
 
 
+def gen_perms(rng):
+    r = rng.random()
+    if r < 0.45:
+        return rng.choice(CANON_PERMS)
+    if r < 0.72:
+        return rng.choice(EDGE_PERMS)
+    if r < 0.97:
+        return rng.randrange(65536)
+    return rng.choice(BIG_PERMS)
+
+
+def gen_target(rng, tl=20):
+    r = rng.random()
+    if r < 0.88 or tl == 0:
+        return bytes(rng.randrange(256) for _ in range(tl))
+    if r < 0.94:
+        return bytes([rng.choice([0, 0xff, 0x20, 0x0a, 0x2f, 0x30])]) * tl
+    t = bytearray(rng.randrange(256) for _ in range(tl))
+    t[rng.choice([0, -1])] = rng.choice([0, 0x20, 0x0a])
+    return bytes(t)
+
+
+def _git_key(e):
+    n = bytes.fromhex(e[0])
+    return n + b"/" if e[1] == "dir" else n
+
+
+def _ordered(rng, es, how):
+    es = list(es)
+    if how == "name":
+        es.sort(key=lambda e: bytes.fromhex(e[0]))
+    elif how == "name_rev":
+        es.sort(key=lambda e: bytes.fromhex(e[0]), reverse=True)
+    elif how == "git":
+        es.sort(key=_git_key)
+    elif how == "git_rev":
+        es.sort(key=_git_key, reverse=True)
+    else:
+        rng.shuffle(es)
+    return es
+
+
 def gen_entries(rng, n, kind):
+    """-> (entries, the entry that makes the set invalid or None)"""
     names = gen_names(rng, n, allow_bad=(kind == "nul"))
     es = []
     for nm in names:
         t = rng.choice(TYPES)
-        perms = rng.choice([0o100644, 0o100755, 0o120000, 0o040000, 0o160000, 0, 7, 0o177777, rng.randrange(65536)])
         tl = 20 if kind != "shorttarget" else rng.choice([0, 1, 19, 20, 21])
-        es.append([nm.hex(), t, bytes(rng.randrange(256) for _ in range(tl)).hex(), perms])
+        es.append([nm.hex(), t, gen_target(rng, tl).hex(), gen_perms(rng)])
+    bad = None
     if kind == "dup" and es:
-        e = list(rng.choice(es))
-        e[1] = rng.choice(TYPES)
-        es.append(e)
+        bad = list(rng.choice(es))
+        if rng.random() < 0.7:
+            bad[1] = rng.choice(TYPES)      # else: the very same entry twice
+        es.append(bad)
     if kind == "slash" and es:
-        e = list(rng.choice(es))
-        e[0] = (bytes.fromhex(e[0]) + b"/x").hex()
-        es.append(e)
-    rng.shuffle(es)
-    return es
+        bad = list(rng.choice(es))
+        nm = bytes.fromhex(bad[0])
+        bad[0] = rng.choice([nm + b"/x", nm + b"/", b"/" + nm, b"/", nm + b"//" + nm, nm[:1] + b"/" + nm[1:]]).hex()
+        if bad[0] in [e[0] for e in es]:
+            bad[0] = (nm + b"/x").hex()
+        es.append(bad)
+    return es, bad
+
+
+def gen_variant(rng, es, bad):
+    """a second entry set, formatted right after the first: one field of one entry changed, two fields swapped, an
+    entry dropped or added; for a set made invalid by one entry: the repaired set"""
+    if bad is not None:
+        return {"kind": "repaired", "entries": [e for e in es if e is not bad]}
+    names = {e[0] for e in es}
+    kinds = ["add"] if not es else [k for k in VARIANTS if len(es) >= 2 or not k.startswith("swap")]
+    k = rng.choice(kinds)
+    vs = [list(e) for e in es]
+    i = rng.randrange(len(vs)) if vs else 0
+    if k == "target":
+        t = bytearray.fromhex(vs[i][2])
+        if t:
+            t[rng.randrange(len(t))] ^= 1 << rng.randrange(8)
+        else:
+            t = bytearray(b"\x01")
+        vs[i][2] = bytes(t).hex()
+    elif k == "perms":
+        p = vs[i][3]
+        vs[i][3] = rng.choice([p ^ 0o1000, p ^ 0o4000, p ^ 1, p + 1, p ^ 0o40000, p * 8, p // 8 if p >= 8 else p + 8])
+    elif k == "type":
+        vs[i][1] = rng.choice([t for t in TYPES if t != vs[i][1]])
+    elif k == "name":
+        for _ in range(20):
+            nm = (bytes.fromhex(vs[i][0]) + rng.choice([a for a in ALPHA if a != b"\x00"])).hex()
+            if nm not in names:
+                vs[i][0] = nm
+                break
+    elif k == "drop":
+        del vs[i]
+    elif k == "add":
+        for _ in range(20):
+            nm = (rng.choice(ALPHA[:7]) + rng.choice(ALPHA[:7]) + rng.choice(ALPHA[:7])).hex()
+            if nm not in names:
+                vs.insert(rng.randrange(len(vs) + 1), [nm, rng.choice(TYPES), gen_target(rng).hex(), gen_perms(rng)])
+                break
+    else:
+        j = rng.choice([x for x in range(len(vs)) if x != i])
+        f = {"swap_target": 2, "swap_perms": 3, "swap_type": 1}[k]
+        vs[i][f], vs[j][f] = vs[j][f], vs[i][f]
+    return {"kind": k, "entries": vs}
+
+
+def _decorate(rng, es, bad, first=None):
+    """the dimensions every case carries besides the entry set"""
+    es = _ordered(rng, es, first or rng.choice(ORDERS))
+    perm = list(range(len(es)))
+    rng.shuffle(perm)
+    how2 = rng.choice(ORDERS[1:])
+    idx = {id(e): k for k, e in enumerate(es)}
+    perm2 = [idx[id(e)] for e in _ordered(rng, es, how2)]
+    reads = list(READS)
+    rng.shuffle(reads)
+    return {"entries": es, "perm": perm, "perm2": perm2,
+            "shape": sorted(rng.sample(SHAPES, rng.choice([1, 1, 2, 3, len(SHAPES)]))),
+            "reads": reads, "dict_as": rng.choice(DICT_AS),
+            "stale": rng.choice(["01" * 20, "00" * 20, bytes(rng.randrange(256) for _ in range(20)).hex()]),
+            "raw": rng.choice([None, None, "", "own", "74726565203000", bytes(rng.randrange(256) for _ in range(rng.randrange(1, 30))).hex()]),
+            "cuts": [rng.randrange(100000) for _ in range(rng.randrange(0, 5))],
+            "variant": gen_variant(rng, es, bad)}
+
+
+def gen_special(rng, tier):
+    """large / long / boundary-length sets"""
+    out = []
+    # payload length 1 below / at / above a power of ten: one entry "100644 <name>\0<20 bytes>" is 28 + len(name) bytes
+    for L in (99, 100, 101, 999, 1000, 1001) + ((9999, 10000, 10001, 99999, 100000) if tier == "thorough" else ()):
+        nm = bytes(rng.choice(b"ab.-0") for _ in range(L - 28))
+        es = [[nm.hex(), "file", gen_target(rng).hex(), 0o100644]]
+        if rng.random() < 0.5 and L > 200:
+            # two entries, same total: 5 + 1 + k + 1 + 20 for a directory whose name is a prefix of the file's
+            k = 40
+            nm = nm[:L - 28 - (27 + k)]
+            es = [[nm.hex(), "file", gen_target(rng).hex(), 0o100644], [nm[:k].hex(), "dir", gen_target(rng).hex(), 0o40000]]
+        out.append(_decorate(rng, es, None))
+    # more distinct modes in one directory than the mode cache holds (128), each mode met again after the others
+    for n in ((200,) if tier == "quick" else (130, 300, 1000, 3000)):
+        names = sorted({b"%c%c%d" % (rng.choice(b"ab.-0~"), rng.choice(b"ab.-0~"), rng.randrange(10 * n)) for _ in range(n)})
+        perms = [rng.randrange(65536) for _ in range(max(129, n // 2))]
+        es = [[nm.hex(), rng.choice(TYPES), gen_target(rng).hex(), perms[k % len(perms)]] for k, nm in enumerate(names)]
+        out.append(_decorate(rng, es, None, first=rng.choice(["name", "git", "shuffle"])))
+    # names of several thousand bytes that differ only at the very end, a directory among them
+    for ln in ((1200,) if tier == "quick" else (3000, 70000)):
+        stem = bytes(rng.choice(b"ab") for _ in range(ln))
+        es = [[stem.hex(), "dir", gen_target(rng).hex(), 0o40000], [(stem + b".").hex(), "file", gen_target(rng).hex(), 0o100644],
+              [(stem + b"0").hex(), "rev", gen_target(rng).hex(), 0o160000], [(stem[:-1]).hex(), "dir", gen_target(rng).hex(), 0o40755]]
+        out.append(_decorate(rng, es, None))
+    for c in out:
+        c["big"] = True
+    return out
 
 
 def gen(rng, tier):
-    n_cases = 1200 if tier == "quick" else 40000
-    cases = [{"entries": [], "perm": []}]
+    n_cases = 600 if tier == "quick" else 40000
+    cases = [{"entries": [], "perm": []}, _decorate(rng, [], None)]
     kinds = ["ok"] * 6 + ["dup", "slash", "nul", "shorttarget"]
     for k in range(n_cases):
         n = rng.choice([0, 1, 2, 2, 3, 3, 4, 5, 8, 13, 25, 40])
-        es = gen_entries(rng, n, kinds[k % len(kinds)])
-        perm = list(range(len(es)))
-        rng.shuffle(perm)
-        cases.append({"entries": es, "perm": perm})
+        es, bad = gen_entries(rng, n, kinds[k % len(kinds)])
+        cases.append(_decorate(rng, es, bad))
+    cases += gen_special(rng, tier)
     if tier == "thorough":
         # exhaustive: all sets of <= 3 entries over a 6-name x 3-type alphabet, all permutations
         names = [b"a", b"a.", b"a0", b"a-", b"ab", b"a/"[:1] + b"\x2f"[:0] + b"~"]
@@ -99,8 +266,8 @@ def _names(c):
 
 def nontrivial(c):
     ns = _names(c)
-    if len(ns) < 2:
-        return False
+    if len(ns) < 2 or c.get("big"):
+        return len(ns) >= 2
     for a in ns:
         for b in ns:
             if a != b and (b.startswith(a) or (a and b and a[:-1] == b[:-1] and (a[-1] < 0x2f) != (b[-1] < 0x2f))):
@@ -110,17 +277,45 @@ def nontrivial(c):
 
 def classify(c):
     ns = _names(c)
-    ks = ["n=%s" % (len(ns) if len(ns) < 5 else "5-13" if len(ns) <= 13 else ">13")]
+    ks = ["n=%s" % (len(ns) if len(ns) < 5 else "5-13" if len(ns) <= 13 else "14-40" if len(ns) <= 40 else ">40")]
     if len(set(ns)) < len(ns):
         ks.append("dup-name")
     if any(b"/" in n for n in ns):
         ks.append("slash")
+        ks += ["slash:" + ("alone" if n == b"/" else "trailing" if n.endswith(b"/") else "leading" if n.startswith(b"/") else "inside")
+               for n in ns if b"/" in n]
     if any(b"\x00" in n for n in ns):
         ks.append("nul-in-name")
     if any(len(e[2]) != 40 for e in c["entries"]):
         ks.append("target-not-20")
     if nontrivial(c):
         ks.append("prefix-or-straddle")
+    ps = [e[3] for e in c["entries"]]
+    if any(p & 0o7000 and p < 65536 for p in ps):
+        ks.append("perms:suid/sgid/sticky-bits")
+    if any(p & 0o170000 == 0o120000 and p & 0o7777 for p in ps):
+        ks.append("perms:symlink-with-permission-bits")
+    if any(p >= 65536 for p in ps):
+        ks.append("perms:beyond-16-bit")
+    if len(set(ps)) > 128:
+        ks.append("perms:more-distinct-than-the-mode-cache")
+    if any(len(set(bytes.fromhex(e[2]))) == 1 or e[2][:2] == "00" or e[2][-2:] in ("00", "20", "0a") for e in c["entries"] if e[2]):
+        ks.append("target:patterned-or-nul/space-at-an-end")
+    if any(len(n) > 1000 for n in ns):
+        ks.append("name>1000-bytes")
+    if "shape" in c:
+        es = c["entries"]
+        byname = sorted(es, key=lambda e: bytes.fromhex(e[0]))
+        bygit = sorted(es, key=_git_key)
+        if len(es) >= 2:
+            ks.append("supplied:" + ("name-sorted" if es == byname else "git-sorted" if es == bygit else "reverse-sorted"
+                                       if es in (byname[::-1], bygit[::-1]) else "unsorted"))
+        ks += ["shape:" + s for s in c["shape"]]
+        ks.append("dict-as:" + c["dict_as"])
+        ks.append("raw:" + ("none" if c["raw"] is None else "empty" if c["raw"] == "" else "own" if c["raw"] == "own" else "other"))
+        ks.append("first-read:" + c["reads"][0])
+        if c.get("variant"):
+            ks.append("variant:" + c["variant"]["kind"])
     return ks
 
 
@@ -129,63 +324,260 @@ def _fresh(t):
     return t.encode("ascii").decode("ascii")
 
 
-def _build(entries, fresh=False):
-    from swh.model.model import Directory, DirectoryEntry
-    return Directory(entries=tuple(
-        DirectoryEntry(name=bytes.fromhex(n), type=_fresh(t) if fresh else t, target=bytes.fromhex(tg), perms=p)
-        for n, t, tg, p in entries))
+class _S(str):
+    pass
+
+
+class _B(bytes):
+    pass
+
+
+class _T(tuple):
+    pass
+
+
+class _I(int):
+    pass
+
+
+_SUB = {}
+
+
+def _entry_subclass():
+    if "E" not in _SUB:
+        from swh.model.model import DirectoryEntry
+
+        class EntrySub(DirectoryEntry):
+            __slots__ = ()
+        _SUB["E"] = EntrySub
+    return _SUB["E"]
+
+
+def _perms_alt(p, i):
+    """an int equal to p of another type: bool, the IntEnum of from_disk, an int subclass"""
+    from swh.model.from_disk import DentryPerms
+    if p in (0, 1) and i % 2 == 0:
+        return bool(p)
+    if p in CANON_PERMS:
+        return DentryPerms(p)
+    return _I(p)
+
+
+def _build_entries(entries, fresh=False, shape=()):
+    from swh.model.model import DirectoryEntry
+    cls = _entry_subclass() if "entrysub" in shape else DirectoryEntry
+    out = []
+    for i, (n, t, tg, p) in enumerate(entries):
+        ty = _fresh(t) if fresh else _S(t) if "strsub" in shape else t
+        tgt = _B(bytes.fromhex(tg)) if "tgtsub" in shape else bytes.fromhex(tg)
+        pp = _perms_alt(p, i) if "permalt" in shape else p
+        if "positional" in shape:
+            out.append(cls(bytes.fromhex(n), ty, tgt, pp))
+        else:
+            out.append(cls(name=bytes.fromhex(n), type=ty, target=tgt, perms=pp))
+    return _T(out) if "tuplesub" in shape else tuple(out)
+
+
+def _build(entries, fresh=False, shape=()):
+    from swh.model.model import Directory
+    ents = _build_entries(entries, fresh, shape)
+    if "defaults" in shape:
+        if "positional" in shape:
+            return Directory(ents, b"", None)
+        return Directory(entries=ents, id=b"", raw_manifest=None)
+    if "positional" in shape:
+        return Directory(ents)
+    return Directory(entries=ents)
+
+
+def _ent_dicts(entries, ordered=False):
+    import collections
+    mk = collections.OrderedDict if ordered else dict
+    return [mk([("name", bytes.fromhex(n)), ("type", t), ("target", bytes.fromhex(tg)), ("perms", p)]) for n, t, tg, p in entries]
+
+
+def _dict_arg(entries, how):
+    """the dictionary form of a directory, with the entries in the container `how` names"""
+    import collections
+    ents = _ent_dicts(entries, ordered=(how == "ordered"))
+    if how == "tuple":
+        return {"entries": tuple(ents)}
+    if how == "gen":
+        return {"entries": (e for e in ents)}
+    if how == "iter":
+        return {"entries": iter(ents)}
+    if how == "ordered":
+        return collections.OrderedDict([("entries", ents)])
+    if how == "extras":
+        return {"raw_manifest": None, "id": b"", "entries": ents}
+    return {"entries": ents}
+
+
+def _try(f):
+    try:
+        return f()
+    except Exception as e:
+        return "error:" + exc_class(e)
+
+
+def _ishex(x, n=None):
+    if not isinstance(x, str) or x.startswith("error:") or (n is not None and len(x) != n):
+        return False
+    try:
+        bytes.fromhex(x)
+        return True
+    except ValueError:
+        return False
 
 
 _LAST_ID = [b"\x02" * 20]
 
 
+def _read(d, op):
+    from swh.model import git_objects
+    from swh.model.model import Directory
+    if op == "manifest":
+        return git_objects.directory_git_object(d).hex()
+    if op == "id":
+        return d.id.hex()
+    if op == "swhid":
+        return str(d.swhid())
+    if op == "compute_hash":
+        return d.compute_hash().hex()
+    if op == "check":
+        d.check()
+        return "ok"
+    if op == "unique_key":
+        return d.unique_key().hex()
+    if op == "to_dict":
+        # the dictionary form carries the id; rebuilt without it the id is recomputed; the caller then edits what it got back
+        td = d.to_dict()
+        if td.get("id") != d.id or "raw_manifest" in td or not isinstance(td.get("entries"), tuple):
+            return "to_dict() does not describe the directory: keys %s" % sorted(td)
+        rebuilt = Directory.from_dict({k: v for k, v in td.items() if k != "id"}).id.hex()
+        for e in td["entries"]:
+            e["name"], e["perms"], e["target"], e["type"] = b"edited", 0, b"", "rev"
+        td["entries"] = ()
+        td["id"] = b"\x00" * 20
+        if d.compute_hash().hex() != rebuilt:
+            return "editing the dictionary returned by to_dict() changed compute_hash()"
+        return rebuilt
+    raise KeyError(op)
+
+
 def impl(c):
+    import copy
+    import warnings
     from swh.model import git_objects
     from swh.model.model import Directory
     res = {}
+    es = c["entries"]
     try:
-        d = _build(c["entries"])
-        res["manifest"] = git_objects.directory_git_object(d).hex()
-        res["id"] = d.id.hex()
-        res["swhid"] = str(d.swhid())
-        res["compute_hash"] = d.compute_hash().hex()
+        d = _build(es)
     except Exception as e:
         res["error"] = exc_class(e)
+        _impl_variant(c, res, None)
         return res
+    # the reads, in the order of the case
+    reads = c.get("reads") or READS
+    for op in reads:
+        res[op] = _try(lambda: _read(d, op))
+    ident = res.get("id")
+    own = bytes.fromhex(ident) if _ishex(ident, 40) else b""
+    res["id_fresh_strings"] = _try(lambda: _build(es, fresh=True).id.hex())
+    # equal values of other types, other argument shapes
+    res["id_shapes"] = _try(lambda: _build(es, shape=c.get("shape", ())).id.hex())
+    res["id_perm"] = _try(lambda: _build([es[i] for i in c["perm"]]).id.hex())
+    if "perm2" in c:
+        res["id_perm2"] = _try(lambda: _build([es[i] for i in c["perm2"]]).id.hex())
+    res["id_evolve"] = _try(lambda: Directory(entries=()).evolve(entries=_build_entries(es)).id.hex())
     try:
-        res["id_fresh_strings"] = _build(c["entries"], fresh=True).id.hex()
-    except Exception as e:
-        res["id_fresh_strings"] = "error:" + exc_class(e)
-    try:
-        d2 = _build([c["entries"][i] for i in c["perm"]])
-        res["id_perm"] = d2.id.hex()
-    except Exception as e:
-        res["id_perm"] = "error:" + exc_class(e)
-    try:
-        import warnings
         with warnings.catch_warnings():
             warnings.simplefilter("ignore")
             # deprecated route: a plain dict instead of a Directory
-            ents = [{"name": bytes.fromhex(n), "type": t, "target": bytes.fromhex(tg), "perms": p} for n, t, tg, p in c["entries"]]
-            res["manifest_from_dict_arg"] = git_objects.directory_git_object({"entries": ents}).hex()
+            ents = _ent_dicts(es)
+            res["manifest_from_dict_arg"] = git_objects.directory_git_object(_dict_arg(es, c.get("dict_as", "list"))).hex()
             # ... carrying an id that is not its own (one value for the whole run, the id of the previous case, its own):
             # the id key of the dict must not decide what is formatted
-            for stale in (b"\x01" * 20, _LAST_ID[0], bytes.fromhex(res["id"]) if isinstance(res.get("id"), str) and len(res["id"]) == 40 else b""):
+            for stale in (b"\x01" * 20, _LAST_ID[0], own):
                 git_objects.directory_git_object({"id": stale, "entries": [dict(e) for e in ents[1:]]})   # another object seen under that id first
                 m2 = git_objects.directory_git_object({"id": stale, "entries": [dict(e) for e in ents]}).hex()
                 if m2 != res["manifest_from_dict_arg"]:
                     res["manifest_from_dict_arg"] = "differs when the dict carries the id %s: %s" % (stale.hex(), m2[:80])
-            if isinstance(res.get("id"), str) and len(res["id"]) == 40:
-                _LAST_ID[0] = bytes.fromhex(res["id"])
+            # ... and the same dict object handed in twice: the call must not consume or edit its argument
+            dd = {"entries": ents}
+            snap = copy.deepcopy(dd)
+            m1 = _try(lambda: git_objects.directory_git_object(dd).hex())
+            m2 = _try(lambda: git_objects.directory_git_object(dd).hex())
+            res["manifest_same_dict_twice"] = m2 if m1 == m2 and dd == snap else "first %s, then %s, dict now has keys %s" % (m1[:60], m2[:60], sorted(dd))
     except Exception as e:
         res["manifest_from_dict_arg"] = "error:" + exc_class(e)
-    try:
-        d3 = Directory.from_dict({"entries": [{"name": bytes.fromhex(n), "type": t, "target": bytes.fromhex(tg), "perms": p}
-                                              for n, t, tg, p in c["entries"]]})
-        res["id_from_dict"] = d3.id.hex()
-    except Exception as e:
-        res["id_from_dict"] = "error:" + exc_class(e)
+    res["id_from_dict"] = _try(lambda: Directory.from_dict(_dict_arg(es, c.get("dict_as", "list"))).id.hex())
+    dd2 = {"entries": _ent_dicts(es)}
+    snap2 = copy.deepcopy(dd2)
+    i1 = _try(lambda: Directory.from_dict(dd2).id.hex())
+    i2 = _try(lambda: Directory.from_dict(dd2).id.hex())
+    res["id_from_dict_twice"] = i2 if i1 == i2 and dd2 == snap2 else "first %s, then %s, dict now has keys %s" % (i1, i2, sorted(dd2))
+    # a Directory that was given an id (not its own / the previous case's / its own): what is formatted and recomputed
+    # comes from the entries
+    for stale in (bytes.fromhex(c.get("stale", "01" * 20)), _LAST_ID[0], own):
+        if len(stale) != 20:
+            continue
+        def with_id():
+            ds = Directory(entries=_build_entries(es), id=stale)
+            return [ds.compute_hash().hex(), git_objects.directory_git_object(ds).hex()]
+        r = _try(with_id)
+        if "given_id" not in res or r != [res.get("compute_hash"), res.get("manifest")]:
+            res["given_id"] = r
+            if r != [res.get("compute_hash"), res.get("manifest")]:
+                res["given_id_was"] = stale.hex()
+                break
+    if own:
+        _LAST_ID[0] = own
+    # the public helpers called directly
+    def sort_keys():
+        objs, dicts = list(d.entries), _ent_dicts(es)
+        a = [e["name"].hex() for e in sorted(dicts, key=git_objects.directory_entry_sort_key)]
+        mixed = [dicts[i] if i % 2 else objs[i] for i in range(len(objs))]
+        b = [(e["name"] if isinstance(e, dict) else e.name).hex() for e in sorted(mixed, key=git_objects.directory_entry_sort_key)]
+        return a if a == b else "dict entries sort as %s, dict and object entries together as %s" % (a[:6], b[:6])
+    res["sorted_names_dict"] = _try(sort_keys)
+    if _ishex(res.get("manifest")):
+        man = bytes.fromhex(res["manifest"])
+        payload = man[man.index(b"\x00") + 1:] if b"\x00" in man else man
+        cuts = sorted(x % (len(payload) + 1) for x in c.get("cuts", []))
+        chunks = [payload[a:b] for a, b in zip([0] + cuts, cuts + [len(payload)])] + [b""]
+        res["from_parts_generator"] = _try(lambda: git_objects.format_git_object_from_parts("tree", (ch for ch in chunks)).hex())
+        # a recorded raw manifest
+        if c.get("raw") is not None:
+            raw = man if c["raw"] == "own" else bytes.fromhex(c["raw"])
+            def with_raw():
+                dr = Directory(entries=_build_entries(es), raw_manifest=raw)
+                return {"used": hx(raw), "id": dr.id.hex(), "compute_hash": dr.compute_hash().hex(),
+                        "manifest": git_objects.directory_git_object(dr).hex()}
+            res["raw"] = _try(with_raw)
+    _impl_variant(c, res, d)
     return res
+
+
+def _impl_variant(c, res, d):
+    """the second entry set, right after the first (d is None when the first was refused)"""
+    from swh.model import git_objects
+    v = c.get("variant")
+    if not v:
+        return
+    out = {}
+    try:
+        dv = _build(v["entries"])
+        out["manifest"] = git_objects.directory_git_object(dv).hex()
+        out["id"] = dv.id.hex()
+    except Exception as e:
+        out["error"] = exc_class(e)
+    if d is not None:
+        out["evolve"] = _try(lambda: d.evolve(entries=_build_entries(v["entries"])).id.hex())
+        out["id_again"] = _try(lambda: _build(c["entries"]).id.hex())
+        out["manifest_again"] = _try(lambda: git_objects.directory_git_object(d).hex())
+    res["variant"] = out
 
 
 def enc_entries(es):
@@ -197,47 +589,103 @@ def enc_entries(es):
 def requests(c, ires):
     e = enc_entries(c["entries"])
     r = ["dir " + e, "git " + e, "dir " + enc_entries([c["entries"][i] for i in c["perm"]])]
-    if "manifest" in ires:
-        r.append("dec " + hx(bytes.fromhex(ires["manifest"])))
+    r.append("dec " + hx(bytes.fromhex(ires["manifest"])) if _ishex(ires.get("manifest")) else "nop")
+    v = c.get("variant")
+    if v:
+        ev = enc_entries(v["entries"])
+        r += ["dir " + ev, "git " + ev]
+    else:
+        r += ["nop", "nop"]
+    raw = ires.get("raw")
+    r.append("cmp %s %s" % (e, raw["used"]) if isinstance(raw, dict) else "nop")
     return r
 
 
 def model(c, resp):
     res = {"dir": resp[0], "git": resp[1], "dir_perm": resp[2]}
-    if len(resp) > 3:
+    if len(resp) > 3 and resp[3] != "err bad_request":
         res["decoded_impl_manifest"] = resp[3]
+    if len(resp) > 5 and c.get("variant"):
+        res["variant_dir"], res["variant_git"] = resp[4], resp[5]
+    if len(resp) > 6 and resp[6] != "err bad_request":
+        res["raw_compute_hash"] = resp[6]
     return res
+
+
+def _valid(es):
+    ns = [bytes.fromhex(e[0]) for e in es]
+    return len(set(ns)) == len(ns) and all(b"/" not in n for n in ns)
 
 
 def _wf(c):
     return all(b"\x00" not in n and b"/" not in n for n in _names(c))
 
 
+def _decodable(es):
+    return all(b"\x00" not in bytes.fromhex(e[0]) and len(e[2]) == 40 for e in es)
+
+
+def _triples(es):
+    return sorted((p, n, tg) for n, t, tg, p in es)
+
+
 def oracle(c, ires, mres):
     """the property on the implementation, using only spec-level artefacts:
     the independent git-rule encoder and the independent decoder (both extracted
     from Coq), hashlib, and permutation of the input"""
-    ns = _names(c)
-    valid = len(set(ns)) == len(ns) and all(b"/" not in n for n in ns)
+    es = c["entries"]
+    valid = _valid(es)
+    v, iv = c.get("variant"), ires.get("variant") or {}
     if "error" in ires:
         if valid:
             return "a valid entry set was rejected with " + ires["error"]
+        if v and _valid(v["entries"]) and "error" in iv:
+            return "after an invalid set was refused, the valid set without the offending entry was rejected with " + iv["error"]
+        if v and _valid(v["entries"]) and _decodable(v["entries"]):
+            return _oracle_variant(c, ires, mres, None)
         return None
     if not valid:
         return None    # invalid sets: only the verdict is compared (compare())
+    for op in ("manifest", "id", "swhid", "compute_hash"):
+        if not isinstance(ires.get(op), str) or ires[op].startswith("error:"):
+            return "reading %s of a valid directory failed: %s (reads in the order %s)" % (op, ires.get(op), c.get("reads"))
     man = bytes.fromhex(ires["manifest"])
+    order = " (reads in the order %s)" % c["reads"] if "reads" in c else ""
     if ires["id"] != hashlib.sha1(man).hexdigest():
-        return "id is not the SHA-1 of the manifest"
+        return "id is not the SHA-1 of the manifest" + order
     if ires["id_fresh_strings"] != ires["id"]:
         return "id depends on the identity (not the value) of the entry type strings: %s vs %s" % (ires["id"], ires["id_fresh_strings"])
     if ires["id_perm"] != ires["id"]:
         return "id depends on the order of the entries: %s vs %s" % (ires["id"], ires["id_perm"])
+    if ires.get("id_perm2", ires["id"]) != ires["id"]:
+        return "id depends on the order of the entries (second order %s): %s vs %s" % (c["perm2"], ires["id"], ires["id_perm2"])
     if ires["manifest_from_dict_arg"] != ires["manifest"]:
-        return "directory_git_object(<dict>) differs from directory_git_object(<Directory>)"
+        return "directory_git_object(<dict>) differs from directory_git_object(<Directory>) (entries given as %s): %s" % (
+            c.get("dict_as", "list"), ires["manifest_from_dict_arg"][:120])
     if ires["id_from_dict"] != ires["id"] or ires["compute_hash"] != ires["id"]:
-        return "id differs between constructor / from_dict / compute_hash"
+        return "id differs between constructor / from_dict (entries given as %s) / compute_hash%s: %s / %s / %s" % (
+            c.get("dict_as", "list"), order, ires["id"], ires["id_from_dict"], ires["compute_hash"])
     if ires["swhid"] != "swh:1:dir:" + ires["id"]:
-        return "swhid() does not carry the id"
+        return "swhid() does not carry the id" + order
+    # the dimensions added by the audit (absent from cases recorded before it)
+    if "id_shapes" in ires and ires["id_shapes"] != ires["id"]:
+        return "the same entry set given with equal values of other types / shapes %s gets another id or is refused: %s vs %s" % (
+            c.get("shape"), ires["id"], ires["id_shapes"])
+    if ires.get("id_evolve", ires["id"]) != ires["id"]:
+        return "Directory(entries=()).evolve(entries=...) does not get the id of the entries: %s" % ires["id_evolve"]
+    if ires.get("manifest_same_dict_twice", ires["manifest"]) != ires["manifest"]:
+        return "directory_git_object(<the same dict>) a second time: " + ires["manifest_same_dict_twice"][:200]
+    if ires.get("id_from_dict_twice", ires["id"]) != ires["id"]:
+        return "Directory.from_dict(<the same dict>) a second time: " + ires["id_from_dict_twice"][:200]
+    if "given_id" in ires and ires["given_id"] != [ires["id"], ires["manifest"]]:
+        return ("a Directory built with the id %s given by the caller: compute_hash() / directory_git_object() are %s, the "
+                "entries' id and manifest are %s / %s..." % (ires.get("given_id_was"), str(ires["given_id"])[:200], ires["id"], ires["manifest"][:40]))
+    for op, want in (("check", "ok"), ("unique_key", ires["id"]), ("to_dict", ires["id"])):
+        if op in ires and ires[op] != want:
+            return "%s of a valid directory: %s%s" % (op, ires[op], order)
+    if "from_parts_generator" in ires and ires["from_parts_generator"] != ires["manifest"]:
+        return "format_git_object_from_parts('tree', <one-shot generator of the payload in %d chunks>) is not the manifest: %s" % (
+            len(c.get("cuts", [])) + 2, ires["from_parts_generator"][:80])
     if _wf(c):
         if mres["git"] != "ok " + hx(man):
             return "manifest differs from git's tree object for these entries (independent encoder, git ordering rule)"
@@ -249,16 +697,52 @@ def oracle(c, ires, mres):
             dec = [] if got == "ok ." else [(int(a), unhx(b), unhx(cc)) for a, b, cc in (t.split(":") for t in got[3:].split("|"))]
             if sorted(dec) != want:
                 return "decoding the manifest does not give back the entry set"
+            if "sorted_names_dict" in ires and ires["sorted_names_dict"] != [n.hex() for _, n, _ in dec]:
+                return "directory_entry_sort_key on dictionary entries does not give git's order: %s" % (ires["sorted_names_dict"][:8],)
+            if v and _valid(v["entries"]) and _decodable(v["entries"]):
+                return _oracle_variant(c, ires, mres, ires)
+    return None
+
+
+def _oracle_variant(c, ires, mres, base):
+    """the variant set is a directory like any other: git's tree id, whatever was formatted just before; and a
+    different (mode, name, target) set never gets the manifest of the first one (C02_distinct_sets_distinct_manifests)"""
+    v, iv = c["variant"], ires["variant"]
+    lab = "second entry set (%s), formatted right after the first: " % v["kind"]
+    if "error" in iv:
+        return lab + "a valid entry set was rejected with " + iv["error"]
+    if mres.get("variant_git") != "ok " + hx(bytes.fromhex(iv["manifest"])):
+        return lab + "manifest differs from git's tree object for these entries"
+    if iv["id"] != hashlib.sha1(bytes.fromhex(iv["manifest"])).hexdigest():
+        return lab + "id is not the SHA-1 of the manifest"
+    if base is None:
+        return None
+    if iv["evolve"] != iv["id"]:
+        return lab + "first.evolve(entries=<second set>) has id %s, the second set's id is %s" % (iv["evolve"], iv["id"])
+    if iv["id_again"] != base["id"] or iv["manifest_again"] != base["manifest"]:
+        return "the first entry set formatted again after another one (%s): id %s / manifest %s..., before: %s / %s..." % (
+            v["kind"], iv["id_again"], iv["manifest_again"][:40], base["id"], base["manifest"][:40])
+    if _triples(c["entries"]) != _triples(v["entries"]) and iv["manifest"] == base["manifest"]:
+        return lab + "two different (mode, name, target) sets get the same manifest"
     return None
 
 
 def compare(c, ires, mres):
+    v, iv = c.get("variant"), ires.get("variant") or {}
+    if v:
+        if "error" in iv:
+            if mres.get("variant_dir") != "err " + iv["error"]:
+                return "second entry set (%s): implementation raised %s, model says %s" % (v["kind"], iv["error"], str(mres.get("variant_dir"))[:40])
+        elif mres.get("variant_dir") != "ok %s %s" % (hx(bytes.fromhex(iv["manifest"])), iv["id"]):
+            return "second entry set (%s): manifest / id differ between model and implementation" % v["kind"]
     if "error" in ires:
         if mres["dir"] != "err " + ires["error"]:
             return "implementation raised %s, model says %s" % (ires["error"], mres["dir"][:40])
         return None
     if not mres["dir"].startswith("ok "):
         return "implementation accepted, model says " + mres["dir"]
+    if not _ishex(ires.get("manifest")):
+        return "implementation built the directory but formatting it gave %s, model says %s" % (ires.get("manifest"), mres["dir"][:40])
     _, man, sha = mres["dir"].split(" ")
     if man != hx(bytes.fromhex(ires["manifest"])):
         return "manifest bytes differ between model and implementation"
@@ -266,20 +750,43 @@ def compare(c, ires, mres):
         return "id differs from the model's SHA-1 of the manifest"
     if mres["dir_perm"] != mres["dir"]:
         return "MODEL is order-dependent on this input (model bug)"
+    if "raw" in ires:
+        raw = ires["raw"]
+        if not isinstance(raw, dict):
+            return "a Directory with a raw_manifest could not be built / read: %s" % raw
+        want = mres.get("raw_compute_hash")
+        if want != "ok " + raw["id"] or want != "ok " + raw["compute_hash"]:
+            return "under the raw_manifest %s the id / compute_hash() are %s / %s, model says %s" % (raw["used"][:40], raw["id"], raw["compute_hash"], want)
+        if raw["manifest"] != ires["manifest"]:
+            return "directory_git_object() of a Directory with a raw_manifest does not format its entries"
+    if v and iv.get("evolve") is not None and "error" not in iv and iv.get("evolve") != iv["id"]:
+        return "first.evolve(entries=<second set>) has id %s, the second set's id is %s" % (iv["evolve"], iv["id"])
     return None
 
 
 def shrink(c):
     es = c["entries"]
+    # first the dimensions around the entry set
+    for key, simple in (("variant", None), ("raw", None), ("shape", []), ("dict_as", "list"), ("reads", list(READS)), ("cuts", [])):
+        if key in c and c[key] != simple:
+            yield dict(c, **{key: simple})
+    if c.get("shape") and len(c["shape"]) > 1:
+        for s in c["shape"]:
+            yield dict(c, shape=[x for x in c["shape"] if x != s])
     for k in range(len(es)):
         sub = es[:k] + es[k + 1:]
-        yield {"entries": sub, "perm": list(reversed(range(len(sub))))}
+        c2 = dict(c, entries=sub, perm=list(reversed(range(len(sub)))))
+        if "perm2" in c2:
+            c2["perm2"] = list(range(len(sub)))
+        if c.get("variant"):
+            c2["variant"] = dict(c["variant"], entries=[e for e in c["variant"]["entries"] if e[0] != es[k][0]])
+        yield c2
     for k, e in enumerate(es):
         nm = bytes.fromhex(e[0])
         if len(nm) > 1:
             for cut in (nm[:-1], nm[1:]):
                 e2 = [cut.hex()] + e[1:]
-                yield {"entries": es[:k] + [e2] + es[k + 1:], "perm": c["perm"]}
+                yield dict(c, entries=es[:k] + [e2] + es[k + 1:])
 
 
 def pre_checks(ctx):
@@ -328,7 +835,14 @@ ANCHORS = [('swh/model/git_objects.py', 'directory_entry_sort_key'),
            ('swh/model/hashutil.py', 'git_object_header'),
            ('swh/model/model.py', 'DirectoryEntry.check_name'),
            ('swh/model/model.py', 'Directory.check_entries'),
-           ('swh/model/model.py', 'Directory._compute_hash_from_attributes')]
+           ('swh/model/model.py', 'Directory._compute_hash_from_attributes'),
+           ('swh/model/model.py', 'Directory.from_dict'),
+           ('swh/model/model.py', 'HashableObjectWithManifest.compute_hash'),
+           ('swh/model/model.py', 'HashableObjectWithManifest.to_dict'),
+           ('swh/model/model.py', 'HashableObjectWithManifest.check'),
+           ('swh/model/model.py', 'BaseHashableModel.check'),
+           ('swh/model/model.py', 'BaseHashableModel.evolve'),
+           ('swh/model/model.py', 'BaseHashableModel.__attrs_post_init__')]
 
 
 def coq_cases(cases):
